@@ -286,6 +286,10 @@ def respond (req : Sexp) : Sexp :=
         cexExternal ⟨spec, prog, ug, po, dec, dir, rep, byp, simp, brk⟩ ps seed tries
       | _, _, _, _, _, _ => bad
     | _, _, _, _, _, _, _ => bad
+  | .list [.atom "cex_decompose", p, probs, seed, tries] =>
+    match Problem.ofSexp p, listOf Problem.ofSexp probs, seed.asNat?, tries.asNat? with
+    | some p, some ps, some seed, some tries => cexDecompose p ps seed tries
+    | _, _, _, _ => bad
   | .list [.atom "cex_gamma", f, g, seed, tries] =>
     match Formula.ofSexp f, Formula.ofSexp g, seed.asNat?, tries.asNat? with
     | some f, some g, some seed, some tries => cexGamma f g seed tries
